@@ -69,13 +69,17 @@ fn reject(n: usize) -> Option<Vec<u8>> {
 }
 fn reject_count() -> usize { REJ.with(|c| { let mut c = c.borrow_mut(); if c.is_none() { *c = Some(reject_corpus()); } c.as_ref().unwrap().len() }) }
 
-pub const VAL_TYPES: [&str; 24] = ["TxValidationError", "ApplyTxError", "ConwayLedgerFailure", "ShelleyPoolPredFailure", "Voter", "VotingProcedure", "Certificate",
+pub const VAL_TYPES: [&str; 28] = ["KeepRawPlutusData", "PlutusDataP", "BabbageDatumOption", "ConwayTxOut", "TxValidationError", "ApplyTxError", "ConwayLedgerFailure", "ShelleyPoolPredFailure", "Voter", "VotingProcedure", "Certificate",
     "ConwayTxCert", "NativeScript", "Utxo", "DRep", "CommitteeAuthorization", "FuturePParams", "GovAction", "NextEpochChange", "HotCredAuthStatus", "Value",
     "TransactionOutput", "RationalNumber", "CostModels", "PlutusData", "BigInt", "DatumOption", "SMaybeU64"];
 
 fn decode_val(ty: &str, bs: &[u8]) -> Option<bool> {
     fn d<T: for<'b> minicbor::Decode<'b, ()>>(bs: &[u8]) -> Option<bool> { Some(minicbor::decode::<T>(bs).is_ok()) }
     match ty {
+        "KeepRawPlutusData" => Some(minicbor::decode::<pallas_codec::utils::KeepRaw<pallas_primitives::PlutusData>>(bs).is_ok()),
+        "PlutusDataP" => d::<pallas_primitives::PlutusData>(bs),
+        "BabbageDatumOption" => Some(minicbor::decode::<pallas_primitives::babbage::DatumOption>(bs).is_ok()),
+        "ConwayTxOut" => Some(minicbor::decode::<pallas_primitives::conway::TransactionOutput>(bs).is_ok()),
         "TxValidationError" => d::<ltx::TxValidationError>(bs),
         "ApplyTxError" => d::<ltx::ApplyTxError>(bs),
         "ConwayLedgerFailure" => d::<ltx::ConwayLedgerFailure>(bs),
@@ -190,6 +194,20 @@ fn targets() -> Vec<Target> {
               "Ae2tdPwUPEZLs4HtbuNey7tK4hTKrwNwYtGqp7bDfCy2WdR3P6735W5Yfpe"] {
         ts.push(Target { kind: "addrstr", id: format!("lit:{}", hex(a.as_bytes())), extra: String::new() });
     }
+    // synthesized carriers: post-Alonzo outputs with an inline datum (`[1, #6.24(bytes)]`) and a script ref,
+    // so the witnesses of the datum decoders can be spliced into the inner buffer of a valid output
+    for c in carriers() {
+        ts.push(Target { kind: "out", id: format!("lit:{}", hex(&c)), extra: "babbage".into() });
+        ts.push(Target { kind: "out", id: format!("lit:{}", hex(&c)), extra: "conway".into() });
+    }
+    // every decoder-branch witness on its own, under KeepRaw and inside a datum option
+    for w in mutate::witnesses() {
+        ts.push(Target { kind: "val", id: format!("lit:{}", hex(&w)), extra: "KeepRawPlutusData".into() });
+        let mut d = vec![0x82, 0x01, 0xd8, 0x18];
+        d.extend_from_slice(&mutate::enc_head(2, w.len() as u64, if w.len() < 24 { 0 } else { 1 }));
+        d.extend_from_slice(&w);
+        ts.push(Target { kind: "val", id: format!("lit:{}", hex(&d)), extra: "BabbageDatumOption".into() });
+    }
     // node-to-client payload decoders: the reject reasons recorded in the repo's own tests …
     let nrej = reject_count();
     for n in 0..nrej {
@@ -206,9 +224,58 @@ fn targets() -> Vec<Target> {
     ts
 }
 
+fn carriers() -> Vec<Vec<u8>> {
+    let addr: Vec<u8> = std::iter::once(0x61u8).chain(std::iter::repeat(0xaa).take(28)).collect();
+    let mut base = vec![0x00, 0x58, 0x1d];
+    base.extend_from_slice(&addr);
+    base.extend_from_slice(&[0x01, 0x1a, 0x00, 0x0f, 0x42, 0x40]);
+    let datum = [0x02u8, 0x82, 0x01, 0xd8, 0x18, 0x45, 0xd8, 0x79, 0x9f, 0x01, 0xff];
+    let script = [0x03u8, 0xd8, 0x18, 0x45, 0x82, 0x01, 0x43, 0x01, 0x02, 0x03];
+    let mut a = vec![0xa3]; a.extend_from_slice(&base); a.extend_from_slice(&datum);
+    let mut b = vec![0xa4]; b.extend_from_slice(&base); b.extend_from_slice(&datum); b.extend_from_slice(&script);
+    let mut c = vec![0xbf]; c.extend_from_slice(&base); c.extend_from_slice(&datum); c.push(0xff);
+    vec![a, b, c]
+}
+
+fn prefix_of(t: &Target) -> String { if t.extra.is_empty() { format!("mut {} {}", t.kind, t.id) } else { format!("mut {} {} {}", t.kind, t.id, t.extra) } }
+
+/// every decoder-branch witness spliced over the root of every wrapped payload (inline datum, script
+/// ref, …) of the carriers, with the enclosing lengths repaired: the carrier stays a valid output / tx
+fn splice_cases(g: &mut Gen, ts: &[Target]) {
+    let wit = mutate::witnesses();
+    let mut real = 0;
+    // post-Alonzo artefacts first: they are the ones that carry inline datums and script refs
+    let mut order: Vec<&Target> = ts.iter().filter(|t| t.id.contains("conway") || t.id.contains("babbage")).collect();
+    order.extend(ts.iter().filter(|t| !(t.id.contains("conway") || t.id.contains("babbage"))));
+    for t in order {
+        if !(t.kind == "out" || t.kind == "tx") { continue; }
+        let synth = t.id.starts_with("lit:");
+        if !synth && real >= if g.thorough() { 60 } else { 10 } { continue; }
+        let Some(base) = artifact(&t.id) else { continue };
+        if base.len() > 20_000 { continue; }
+        let tree = mutate::tree(&base);
+        // roots of `#6.24(bytes)` payloads (inline datums, script refs, wrapped headers); a byte string that
+        // merely happens to parse as CBOR only counts for the synthesized carriers
+        let tagged = |n: &&mutate::Node| n.wrap_root && n.wraps.last().map(|w| w.head_pos >= 2 && base[w.head_pos - 2] == 0xd8 && base[w.head_pos - 1] == 0x18).unwrap_or(false);
+        let roots: Vec<&mutate::Node> = tree.iter().filter(tagged).collect();
+        if roots.is_empty() { continue; }
+        if !synth { real += 1; }
+        let mut ops = vec![];
+        for n in roots.iter().take(3) {
+            for w in &wit {
+                let edits = mutate::nested_edit(&n.wraps, n.start, n.end - n.start, w.clone());
+                ops.push(format!("{} {}", prefix_of(t), edits.iter().map(mutate::show).collect::<Vec<_>>().join(" ")));
+            }
+        }
+        for chunk in ops.chunks(24) { g.case(chunk.to_vec()); }
+    }
+}
+
 pub fn generate(g: &mut Gen) {
     let ts = targets();
     if ts.is_empty() { g.case(vec!["mut block missing.block".to_string()]); return; }
+    splice_cases(g, &ts);
+    let wit = mutate::witnesses();
     // small artefacts (addresses, outputs, headers, txs) are cheap: they get most of the cases
     for i in 0..g.cases {
         // one case in sixteen: random bytes (no artefact at all) through a random entry point
@@ -227,13 +294,20 @@ pub fn generate(g: &mut Gen) {
         }
         let t = &ts[if i < ts.len() { i } else { g.rng.below(ts.len() as u64) as usize }];
         let Some(base) = artifact(&t.id) else { continue };
-        let prefix = if t.extra.is_empty() { format!("mut {} {}", t.kind, t.id) } else { format!("mut {} {} {}", t.kind, t.id, t.extra) };
+        let prefix = prefix_of(t);
         let mut ops = vec![prefix.clone()];
         let n_mut = if base.len() > 100_000 { 2 } else if g.thorough() { 10 } else { 6 };
         let hs = mutate::heads(&base);
+        let tr = if base.len() <= 300_000 { mutate::tree(&base) } else { vec![] };
         for j in 0..n_mut {
             let mut cur = base.clone();
             let mut line = prefix.clone();
+            // every other mutant starts with a structure-aware edit (break / boundary / def<->indef / witness splice)
+            if j % 2 == 1 && !tr.is_empty() {
+                let es = mutate::gen_struct_edits(&mut g.rng, &base, &tr, &wit);
+                for e in &es { mutate::apply(&mut cur, e); line.push(' '); line.push_str(&mutate::show(e)); }
+                if !es.is_empty() && j % 4 == 1 { ops.push(line); continue; }
+            }
             for _ in 0..(1 + j % 3) {
                 let hs2;
                 let hsr = if cur.len() == base.len() { &hs } else { hs2 = mutate::heads(&cur); &hs2 };
@@ -298,7 +372,7 @@ pub fn run_case(case: &Case, out: &mut Out) {
         let args = op[3..3 + nargs].to_vec();
         match guard(|| decode(kind, &args, &bytes)) {
             None => {
-                let class = if kind == "val" { args[0].clone() } else { op[2].split(|c| c == '.' || c == '#').next().unwrap_or("").trim_end_matches(char::is_numeric).to_string() };
+                let class = if kind == "val" { args[0].clone() } else if op[2].starts_with("lit:") { "lit".to_string() } else { op[2].split(|c| c == '.' || c == '#').next().unwrap_or("").trim_end_matches(char::is_numeric).to_string() };
                 out.viol(format!("panic decode {kind} {class}"), format!("{} -> {} bytes {}", op.join(" "), bytes.len(), if bytes.len() <= 256 { hex(&bytes) } else { format!("{}…", hex(&bytes[..64])) }));
                 out.panic();
             }
